@@ -156,9 +156,18 @@ def r2_non_float_filter(ctx):
     fsrc = ast.unparse(filt.node)
     ctx.check(R, '_tensor_indices_with_dtype' in fsrc, filt.node, filt, 'keep set', 'the filter no longer selects operands by tensor dtype')
     sel = ctx.repo.func(f'{MMU}:_tensor_indices_with_dtype')
-    tests = [x for x in ast.walk(sel.node) if isinstance(x, ast.Compare) and any(isinstance(o, ast.In) for o in x.ops)
-             and isinstance(x.left, ast.Attribute) and x.left.attr == 'type']
-    ctx.check(R, len(tests) == 1, sel.node, sel, 'tensor.type in codes', 'operand selection no longer tests tensor.type against the dtype codes')
+    # the selection itself is decided on values: exactly the positions whose tensor has one of the given type codes
+    it_ = tables.interp(ctx)
+    for types, operands, codes in (([0, 2, 0, 9], [0, 1, 2, 3], [0]), ([0, 2, 0, 9], [3, 1, 0], [0]), ([2, 2], [0, 1], [0]), ([0, 9, 2], [2, 1, 0, 1], [2, 9]), ([0], [], [0])):
+      ts = [Obj('x:TensorT', {'name': f't{k}'.encode(), 'type': t}) for k, t in enumerate(types)]
+      outs = it_.outcomes(sel, [list(operands), ts, list(codes)])
+      want = [i for i, o in enumerate(operands) if types[o] in codes]
+      label = f'operands {operands} of tensors typed {types}, codes {codes}'
+      if len(outs) != 1 or outs[0].kind != 'return':
+        ctx.check(R, False, sel.node, sel, label, f'not decided: {[o.short()[:80] for o in outs]}')
+        continue
+      ctx.check(R, list(outs[0].value) == want if isinstance(outs[0].value, (list, tuple)) else False, sel.node, sel, f'{label} -> {outs[0].value!r}',
+                f'operand selection must return the positions {want} whose tensor type is one of the codes')
     # input/output halves of the filter are siblings
     halves = {'in': [], 'out': []}
     for stx in filt.node.body:
@@ -187,10 +196,10 @@ def r2_non_float_filter(ctx):
         got = None
         for c in common.calls_in(fi.node):
           if common.call_name(c).endswith('materialize_standard_op'):
-            for k in c.keywords:
-              if k.arg == 'inputs_to_ignore':
+            for kname, kval in common.named_args(ctx, fi, c).items():
+              if kname == 'inputs_to_ignore':
                 try:
-                  got = ctx.ev.eval(defuse.Inliner(ctx.repo).inline(fi, k.value), fi.module, {})
+                  got = ctx.ev.eval(defuse.Inliner(ctx.repo).inline(fi, kval), fi.module, {})
                 except Exception:  # pylint: disable=broad-except
                   got = 'unfoldable'
         ctx.check(R, isinstance(got, list) and set(want) <= set(got), fi.node, fi, f'{op.name} inputs_to_ignore={got}',
@@ -246,7 +255,9 @@ def r3_no_quant_totality(ctx):
     apps = {n.id for n in gq.nodes if n.kind == 'stmt' and any(isinstance(c.func, ast.Attribute) and c.func.attr == 'append' for c in n.calls())}
     body = gq.loop_body_nodes(head.id)
     guard = [n for n in body if gq.nodes[n].kind == 'if']
-    ok = len(guard) == 1 and ast.unparse(gq.nodes[guard[0]].ast.test).replace(' ', '') in (f'{l.target.id}!=-1',)
+    gt_ = gq.nodes[guard[0]].ast if len(guard) == 1 else None
+    as_guard = gt_ is not None and len(gt_.body) == 1 and isinstance(gt_.body[0], ast.Continue) and not gt_.orelse
+    ok = gt_ is not None and ast.unparse(gt_.test).replace(' ', '') in ((f'{l.target.id}==-1', f'{l.target.id}<0') if as_guard else (f'{l.target.id}!=-1', f'{l.target.id}>=0'))
     ctx.check(R, ok, l, nq, l, 'the only operand skipped by the no-quant path must be the absent operand -1')
     # appended value carries [NO_QUANTIZE]
   helper = ast.unparse(nq.node)
@@ -372,7 +383,7 @@ def r6_config_selection(ctx):
   found = []
   ok = False
   for c in calls:
-    kw = {k.arg: k.value for k in c.keywords}
+    kw = common.named_args(ctx, b, c)
     if 'is_constant' in kw:
       found.append(defuse.norm(inl0.inline(b, kw['is_constant'])).replace('op_info.op_quant_config', 'CFG').replace('_ComputePrecision', 'CP').replace('qtyping.ComputePrecision', 'CP'))
     if 'is_inbounding_tensor' in kw and defuse.norm(kw['is_inbounding_tensor']) == 'True':
